@@ -501,6 +501,8 @@ fn libsig_case(case: &Case, acc: &mut Acc, row: &KeyRow, comp: bool, msg: &[u8],
         v.expect_bytes("recover_public_key", &format!("{}: signer's key in the recorded form", label), a, want_key);
         let a = call(v.acc, || sg.recover_public_key_from_digest(&z32).and_then(|k| k.to_bytes()));
         v.expect_bytes("recover_public_key_from_digest", &format!("{}: signer's key in the recorded form", label), a, want_key);
+        let a = call(v.acc, || sg.get_public_key_from_digest(&z32).and_then(|k| k.to_bytes()));
+        v.expect_bytes("get_public_key_from_digest", &format!("{}: signer's key in the recorded form", label), a, want_key);
     }
     // ---- the malleated twin (r, n - s) with the opposite y parity is a signature of the same signer over the same message:
     // recovery from its compact form must also return the signer's key (the reference recovery confirms it first)
